@@ -10,6 +10,7 @@ import (
 	"fmt"
 	"math"
 	"strings"
+	"sync"
 )
 
 const tryLabel = "try"
@@ -60,8 +61,9 @@ func Deferred[V any](fn func() *Generator[V]) *Generator[V] {
 }
 
 type deferredGen[V any] struct {
-	g  *Generator[V]
-	fn func() *Generator[V]
+	once sync.Once
+	g    *Generator[V]
+	fn   func() *Generator[V]
 }
 
 func (g *deferredGen[V]) String() string {
@@ -70,9 +72,9 @@ func (g *deferredGen[V]) String() string {
 }
 
 func (g *deferredGen[V]) value(t *T) V {
-	if g.g == nil {
+	g.once.Do(func() {
 		g.g = g.fn()
-	}
+	})
 	return g.g.value(t)
 }
 
